@@ -71,6 +71,14 @@ func replayFresh(path []*sim.Block, heads sim.Heads, index bool) (*sim.Net, erro
 			f.Close()
 			return nil, fmt.Errorf("fresh: insert block %d: %w", i, err)
 		}
+		if os.Getenv("VERIF_C10_DEBUG") != "" {
+			if err := f.SetHeads(b.After); err == nil {
+				fp, msg := sim.CheckHeadCommitment(f.Nodes[sim.Zone])
+				fmt.Printf("DEBUG fresh block %d order=%d #%d: %s %s\n", i, b.Order, b.Zone().NumberU64(sim.Zone), fp, msg)
+			} else {
+				fmt.Printf("DEBUG fresh block %d: setheads: %v\n", i, err)
+			}
+		}
 	}
 	if err := f.SetHeads(heads); err != nil {
 		f.Close()
@@ -221,6 +229,7 @@ func TestC10_Reorg(t *testing.T) {
 					return
 				}
 			}
+			freshFp, freshMsg := sim.CheckHeadCommitment(fresh.Nodes[sim.Zone])
 			fresh.Close()
 			if prev, ok := seen[tg.name]; ok {
 				stats.Label(part, "switch_back")
@@ -232,7 +241,7 @@ func TestC10_Reorg(t *testing.T) {
 			seen[tg.name] = got
 			visited = append(visited, tg)
 			if fp, msg := sim.CheckHeadCommitment(n.Nodes[sim.Zone]); fp != "" {
-				stats.Violation(t, part, "C10/commitment/"+fp, fmt.Sprintf("after %s -> %s: %s", cur.name, tg.name, msg), dump())
+				stats.Violation(t, part, "C10/commitment/"+fp, fmt.Sprintf("after %s -> %s: %s (a fresh node that only saw %s: %q %s)", cur.name, tg.name, msg, tg.name, freshFp, freshMsg), dump())
 				return
 			}
 			cur = tg
